@@ -23,10 +23,10 @@ const SPECIALS: [u32; 10] = [
 /// Six vectors per dimension that together place every special value at the first, a middle,
 /// the 64th/65th and the last position.
 pub fn special_vectors(dim: usize) -> Vec<Vec<u32>> {
-    let mut v: Vec<Vec<u32>> = (0..6).map(|k| (0..dim).map(|j| SPECIALS[(j + 3 * k) % 10]).collect()).collect();
+    let mk = |k: usize| -> Vec<u32> { (0..dim).map(|j| SPECIALS[(j + 3 * k) % 10]).collect() };
     // the second vector of the menu equals the first one up to the sign of its zeros and the
     // payload of its NaNs: overwriting one by the other changes bits but not IEEE equality
-    let twin: Vec<u32> = v[0]
+    let twin: Vec<u32> = mk(0)
         .iter()
         .map(|b| match *b {
             0x0000_0000 => 0x8000_0000,
@@ -35,8 +35,9 @@ pub fn special_vectors(dim: usize) -> Vec<Vec<u32>> {
             x => x,
         })
         .collect();
-    v.insert(1, twin);
-    v
+    // order: zeros first, then the vectors that start with +inf and with a NaN (so that even a
+    // one-dimensional, four-vector menu holds a zero, its twin, an infinity and a NaN)
+    vec![mk(0), twin, mk(2), mk(3), mk(1), mk(4), mk(5)]
 }
 
 fn plain_vectors(dim: usize) -> Vec<Vec<u32>> {
@@ -155,8 +156,9 @@ pub fn c05(tier: Tier) -> i32 {
     match tier {
         Tier::Quick => {
             runs.push((c05_cfg(Metric::Euclidean, 3, 3, 5), caps(14)));
-            runs.push((c05_cfg(Metric::DotProduct, 1, 3, 5), caps(14)));
-            runs.push((c05_cfg(Metric::DotProduct, 3, 2, 5), caps(14)));
+            runs.push((c05_cfg(Metric::Manhattan, 1, 4, 4), caps(14)));
+            runs.push((c05_cfg(Metric::DotProduct, 1, 4, 4), caps(14)));
+            runs.push((c05_cfg(Metric::DotProduct, 3, 4, 4), caps(14)));
             runs.push((c05_cfg(Metric::BqCosine, 65, 3, 5), caps(14)));
             runs.push((c05_cfg(Metric::Cosine, 65, 2, 4), caps(14)));
         }
@@ -220,8 +222,51 @@ pub fn c06(tier: Tier) -> i32 {
         }
     }
     run_txn(&mut report, "C06", runs);
-    report.cov("oracle", "after every action of every history over {add, overwrite, append ok/rejected, add with a wrong length, delete present/absent, clear, build, build cancelled at its first poll, commit, abort} on two indexes: Reader::open is Ok / MissingMetadata / NeedBuild exactly as the model's (built, stale) says, need_build() = !built || stale, opening under another metric fails, inside the write transaction and from a fresh read transaction after commit; calls that change nothing leave the raw dump byte-identical");
+    metric_matrix(&mut report);
+    report.cov("oracle", "an index built under each of the 7 metrics opens under that metric and fails with UnmatchingDistance under each of the 6 others (49 pairs); after every action of every history over {add, overwrite, append ok/rejected, add with a wrong length, delete present/absent, clear, build, build cancelled at its first poll, commit, abort} on two indexes: Reader::open is Ok / MissingMetadata / NeedBuild exactly as the model's (built, stale) says, need_build() = !built || stale, opening under another metric fails, inside the write transaction and from a fresh read transaction after commit; calls that change nothing leave the raw dump byte-identical");
     report.finish()
+}
+
+/// Every (built-with, opened-as) pair of the 7 metrics: Ok on the diagonal, UnmatchingDistance elsewhere.
+fn metric_matrix(report: &mut Report) {
+    use crate::common::{arroy_db, Scratch, Violation};
+    let dim = 3;
+    let vecs = plain_vectors(dim);
+    let mut pairs = 0u64;
+    crate::explore::in_single_thread_pool(|| {
+        for built in M7 {
+            let s = Scratch::new("c06m");
+            let mut wtxn = s.env.write_txn().unwrap();
+            let mut types = crate::exec::IndexTypes::new();
+            types.insert(9, (built, dim));
+            for (k, v) in vecs.iter().enumerate() {
+                crate::exec::exec(s.db, &mut wtxn, &mut types, &Action::Add { index: 9, id: k as u32, vec: v.clone() });
+            }
+            let (o, _) = crate::exec::exec(s.db, &mut wtxn, &mut types, &build(9, Some(2), Some(1), None));
+            if !o.is_ok() {
+                report.add_violation(Violation::new("SL/matrix-build", format!("building a 3-item {} index: {}", built.short(), o.describe())));
+                continue;
+            }
+            for opened in M7 {
+                pairs += 1;
+                let got = crate::with_metric!(opened, OD => {
+                    match crate::common::catch(|| arroy::Reader::<OD>::open(&wtxn, 9, arroy_db::<OD>(s.db)).map(|_| ())) {
+                        Ok(Ok(())) => "Ok".to_string(),
+                        Ok(Err(e)) => crate::exec::ErrKind::of(&e).tag(),
+                        Err(p) => format!("panic {}", p.message),
+                    }
+                });
+                let want = if opened == built { "Ok" } else { "UnmatchingDistance" };
+                if got != want {
+                    report.add_violation(Violation::new(
+                        format!("SL/metric-matrix:{}-as-{}", built.short(), opened.short()),
+                        format!("an index built under {} and opened under {}: {got}, expected {want}", built.short(), opened.short()),
+                    ));
+                }
+            }
+        }
+    });
+    report.cov("metric_pairs_checked", pairs);
 }
 
 // ------------------------------------------------------------------------------------------
